@@ -24,7 +24,8 @@ func (x *X) droppedCall(f *Frame, st *State, fn *types.Func, sig *types.Signatur
 	case pkg == "github.com/polynetwork/poly/common/log" || (pkg == "log" && strings.HasPrefix(fn.Name(), "Print")):
 		x.c.assumption("log.* calls are dropped (no effect on verified state)")
 		return x.freshResults(st, sig, "log"), true
-	case full == "fmt.Errorf" || full == "errors.New":
+	case full == "fmt.Errorf" || full == "errors.New" ||
+		(pkg == "github.com/pkg/errors" && (fn.Name() == "Errorf" || fn.Name() == "New")):
 		x.c.assumption("fmt.Errorf/errors.New return a fresh non-nil error; message text is not modelled")
 		e := x.c.fresh("err", SRef)
 		x.c.assume(st.pc, Not(Eq(e, BVInt(0, 64))))
